@@ -346,7 +346,7 @@ def main():
                             HG._msg('perl-brace-format', '{a}', '{a}') + HG._msg('python-format', '%(a)s', '%(a)s'), extra_fields='X-Poedit-Language: Polish\n'), '.po'),
                   (b"# SOME DESCRIPTIVE TITLE.\n# Copyright (C) YEAR THE PACKAGE'S COPYRIGHT HOLDER\n" + HG._wrap(HG._msg('', 'a', 'b')), '.pot'), (HG._mo_n(2), '.mo')]
     rx = RX.Screen(rx_samples, limit_s=100 if chk.thorough else 70)
-    n_files = (30000 if chk.thorough else 4000) * mult
+    n_files = (60000 if chk.thorough else 4000) * mult
     workers = 4
 
     sect['proof+model-streams'] = round(time.time() - chk.t0 - sum(sect.values()), 1)
